@@ -3,7 +3,7 @@ from lib.common import *
 from checks.repair_common import *
 
 CLAUSES = {"NoPanic", "Opens", "NamesOriginal", "Prefix", "FinishedIdentical", "EndOnlyIfComplete",
-           "AuthOnlyVerified", "UnauthAtLeastAuth", "Exact"}
+           "AuthOnlyVerified", "UnauthAtLeastAuth", "UnauthAtLeastAuth_DecoderTail", "Exact"}
 
 
 def main(tier):
